@@ -4,7 +4,7 @@
    and input list.  "Matched" is what the match oracle (CPython re.match, recorded per run) says. *)
 From Coq Require Import ZArith List Bool.
 From Tdda Require Import Base.Sexp Base.Str Rexpy.Chars Rexpy.Pipeline Rexpy.PipelineProofs Rexpy.Sem
-     Rexpy.OracleCheck Rexpy.RefineProofs Rexpy.BatchProofs Rexpy.LoopProofs.
+     Rexpy.OracleCheck Rexpy.RefineProofs Rexpy.BatchProofs Rexpy.LoopProofs Rexpy.Regex Rexpy.RegexProofs.
 Import ListNotations.
 Open Scope Z_scope.
 
@@ -71,6 +71,29 @@ Print Assumptions C03_refine_covers.
 Theorem C03_interpreter_tables_ok : table_ok py_chartab.
 Proof. exact py_table_ok. Qed.
 Print Assumptions C03_interpreter_tables_ok.
+
+(* AT THE LEVEL OF THE TEXT.  Rexpy/Regex.v models the regular-expression syntax rexpy writes (parser from text to
+   quantified character sets, backtracking matcher; compared with CPython re on every evaluated pair).  For any
+   pattern whose fragments are renderable (no extra letters; known categories; non-negative counts), the text
+   rendered for it - escaped or not, with or without \s* padding and capture groups - parses, and the model's
+   reading of the text accepts every string the pattern matches fragment by fragment. *)
+Theorem C03_rendered_text_matches : forall ct full stripped tagged frags text s,
+  forallb frag_renderable frags = true ->
+  vrle2re false full [] stripped tagged frags = Ok text ->
+  matches_frags ct false [] frags s ->
+  re_model_match ct text s = Some true.
+Proof. exact rendered_text_matches. Qed.
+Print Assumptions C03_rendered_text_matches.
+
+(* ... so one batch extraction covers its working examples as TEXT: each is matched by one of the expressions *)
+Theorem C03_batch_text_covers : forall ct o stripped gt ex merged rex,
+  batch_extract ct o [] stripped gt ex = Ok (merged, rex) ->
+  table_ok ct -> 1 <= z_max_strings_in_group o ->
+  batch_oracle_okb ct o [] stripped gt ex = true ->
+  batch_renderable ct o stripped gt ex = true ->
+  forall s, In s (ex_strings ex) -> exists text, In text rex /\ re_model_match ct text s = Some true.
+Proof. exact batch_text_covers. Qed.
+Print Assumptions C03_batch_text_covers.
 
 (* The extraction loop (Extractor.extract: sampled attempts, then unsampled passes until a check adds nothing) always
    ends: for every input, option set and oracle, the model's bound on the number of passes -
